@@ -5,10 +5,13 @@ set -u
 id=$1; shift
 cd /verif
 if ! git -C /repo diff --quiet; then echo "/repo is dirty, refusing"; exit 2; fi
-git -C /repo apply /verif/seeded/$id/patch.diff || exit 2
+# evidence files describe the unchanged tree: keep them out of the seeded runs
+bk=$(mktemp -d /verif/.build/evidence-bk.XXXXXX); cp -a evidence/. $bk/
+git -C /repo apply /verif/seeded/$id/patch.diff || { rm -rf $bk; exit 2; }
 for p in "$@"; do
   out=$(VERIF_NO_SEARCH=${VERIF_NO_SEARCH:-} bin/check $p quick 2>&1); rc=$?
   echo "--- $id vs $p: exit $rc"
   echo "$out" | grep -E "VIOLATION|KNOWN|cases," | cut -c1-220
 done
 git -C /repo checkout -- .
+cp -a $bk/. evidence/; rm -rf $bk
